@@ -342,6 +342,12 @@ func c04GenJSONExprPaths(r *rand.Rand, dest vtree) (string, [][]c04Seg) {
 	sep := ","
 	if r.Intn(6) == 0 {
 		sep = " , "
+		// the blank after the comma is not skipped: it belongs to the next pair's first key
+		// (the first version of this generator named the key without it: flag-frame false
+		// alarm in the thorough tier, notes/C04.md)
+		for i := 1; i < len(paths); i++ {
+			paths[i] = append([]c04Seg{{Key: " " + paths[i][0].Key, Idx: paths[i][0].Idx}}, paths[i][1:]...)
+		}
 	}
 	return strings.Join(parts, sep), paths
 }
